@@ -71,6 +71,7 @@ TNlp == Ev.op = "nlp"
     /\ ~Ev.panic
     /\ (Ev.ntok <= 10 => SeqSet(Ev.off) \subseteq SeqSet(Ev.on))           \* every lexical match is still a candidate
     /\ SeqSet(Ev.first4) \subseteq SeqSet(Ev.on)                           \* the first four content words are always retained
+    /\ SeqSet(Ev.first4) \subseteq SeqSet(Ev.oncap)                        \* ... also under a small cap on the number of terms
     /\ (\A i \in 1..Len(Ev.oncmp) : Ev.oncmp[i] >= 0)
     /\ Len(Ev.kw) <= Len(Ev.enh) /\ SubSeq(Ev.enh, 1, Len(Ev.kw)) = Ev.kw  \* the expanded list begins with the keywords
     /\ Cardinality(SeqSet(Ev.enh)) = Len(Ev.enh)                           \* no duplicates
